@@ -425,6 +425,22 @@ def check_plain(case, ctx):
         stl_txt = exchange.export_stl_str(o2, binary=False, update_delta=False)
         facets = stl_txt.split('facet normal')[1:]
         per = [f_.count('vertex ') for f_ in facets]
+        if len(facets) == 2 * nq and all(c_ == 3 for c_ in per):
+            # the two facets of a quad tile it: they share one of its diagonals and cover its four corners
+            def fverts(f_):
+                return [tuple(float(x_) for x_ in ln.split()[1:4]) for ln in f_.split('\n') if ln.strip().startswith('vertex ')]
+            bad_q = None
+            for k_, q_ in enumerate(QF2):
+                cor = [tuple(float(x_) for x_ in QV2[i_].data) for i_ in q_.data]
+                if len(set(cor)) < 4:
+                    continue
+                t1, t2 = set(fverts(facets[2 * k_])), set(fverts(facets[2 * k_ + 1]))
+                sh = t1 & t2
+                if (t1 | t2) != set(cor) or sh not in ({cor[0], cor[2]}, {cor[1], cor[3]}):
+                    bad_q = k_
+                    break
+            ctx.check(bad_q is None, 'export/quad-stl-split', 'ASCII STL export: the two facets written for quad %r do not tile it (they must share one of its '
+                      'diagonals and cover its four corners)' % (bad_q,), what='stl-ascii')
         ctx.check(len(facets) == 2 * nq and all(c_ == 3 for c_ in per), 'export/quad-stl', 'ASCII STL export of %d quads: %d facets with %r vertices each '
                   '(a quad is two triangular facets)' % (nq, len(facets), sorted(set(per))), what='stl-ascii')
         stl_bin = exchange.export_stl_str(o2, binary=True, update_delta=False)
